@@ -69,6 +69,15 @@ class FEval:
             for st in self.cls_node.body:
                 if isinstance(st, ast.Assign) and len(st.targets) == 1 and isinstance(st.targets[0], ast.Name) and st.targets[0].id == recv.attr:
                     return self.delegated_class(st.value)
+        if isinstance(recv, ast.Name):
+            # a module-level name of the analysed file bound exactly once to `Cls()` (a shared stateless instance)
+            tree = self.model.trees.get(self.file)
+            if tree is not None:
+                ds = [st for st in tree.body if isinstance(st, ast.Assign) and len(st.targets) == 1 and isinstance(st.targets[0], ast.Name) and
+                      st.targets[0].id == recv.id]
+                stores = [n for n in ast.walk(tree) if isinstance(n, ast.Name) and n.id == recv.id and isinstance(n.ctx, ast.Store)]
+                if len(ds) == 1 and len(stores) == 1:
+                    return self.delegated_class(ds[0].value)
         return None
 
     def _call(self, e, T):
